@@ -75,7 +75,7 @@ def replay_and_validate(chk, exe, hists, label):
         t = to_trace(h, evs)
         owners.append((len(trace), hi))
         trace += t
-    acc, rejected, states, info = tlc.validate_trace("DStringTrace", os.path.join(VERIF, "spec", "DStringTrace.cfg"), trace)
+    acc, rejected, states, info = tlc.validate_trace("DStringTrace", os.path.join(VERIF, "spec", "DStringTrace.cfg"), trace, independent=True)
     chk.add("traces_validated_against_impl", len(hists) - len(bad) - len(rejected))
     chk.add("trace_events_validated", acc)
     chk.add("trace_states", states)
